@@ -1393,8 +1393,8 @@ impl Stdfs {
     /// ```
     pub fn remove<T: AsRef<Path>>(path: T) -> RvResult<()> {
         let path = Stdfs::abs(path)?;
-        if let Ok(meta) = fs::metadata(&path) {
-            if meta.is_file() {
+        if let Ok(meta) = fs::symlink_metadata(&path) {
+            if meta.is_file() || meta.file_type().is_symlink() {
                 fs::remove_file(&path)?;
             } else if meta.is_dir() {
                 let result = fs::remove_dir(&path);
